@@ -337,9 +337,15 @@ class Engine:
                         elif isinstance(n.args[1], ast.Name):
                             # for name in [...]: setattr(self, name, ...)
                             for m in ast.walk(f.node):
-                                if isinstance(m, ast.For) and isinstance(m.target, ast.Name) and m.target.id == n.args[1].id \
-                                        and isinstance(m.iter, (ast.List, ast.Tuple)):
-                                    out |= {e.value for e in m.iter.elts if isinstance(e, ast.Constant)}
+                                if isinstance(m, ast.For) and isinstance(m.target, ast.Name) and m.target.id == n.args[1].id:
+                                    it = m.iter
+                                    if isinstance(it, ast.Name):
+                                        # a module-level tuple / list of names assigned once
+                                        tops = [st.value for st in f.module.tree.body if isinstance(st, ast.Assign) and len(st.targets) == 1
+                                                and isinstance(st.targets[0], ast.Name) and st.targets[0].id == it.id]
+                                        it = tops[0] if len(tops) == 1 else it
+                                    if isinstance(it, (ast.List, ast.Tuple)):
+                                        out |= {e.value for e in it.elts if isinstance(e, ast.Constant)}
         return out
 
     def classes_with(self, attrs, caller_module):
@@ -1583,9 +1589,15 @@ class FunctionAnalysis:
             if not hasattr(self, "_bindings"):
                 self._bindings = A.local_bindings(self.node)
             bs = self._bindings.get(node.id, [])
-            if len(bs) == 1 and bs[0][2] == "for" and isinstance(bs[0][1], (ast.List, ast.Tuple)) and bs[0][1].elts \
-                    and all(isinstance(e, ast.Constant) and isinstance(e.value, str) for e in bs[0][1].elts):
-                return [e.value for e in bs[0][1].elts]
+            if len(bs) == 1 and bs[0][2] == "for":
+                it = bs[0][1]
+                if isinstance(it, ast.Name) and it.id not in self._bindings:
+                    # a module-level tuple / list of names assigned exactly once
+                    tops = [st_.value for st_ in self.mod.tree.body if isinstance(st_, ast.Assign) and len(st_.targets) == 1
+                            and isinstance(st_.targets[0], ast.Name) and st_.targets[0].id == it.id]
+                    it = tops[0] if len(tops) == 1 else it
+                if isinstance(it, (ast.List, ast.Tuple)) and it.elts and all(isinstance(e, ast.Constant) and isinstance(e.value, str) for e in it.elts):
+                    return [e.value for e in it.elts]
         return ["*"]
 
     @staticmethod
